@@ -589,6 +589,14 @@ func (w *world) pairSetup(cn, ctrl, variant string) string {
 			parts = append(parts, tlvSummary(m, r.status))
 		}
 		return "S=" + strings.Join(parts, "/") + "[]"
+	case "m5of_a", "m5of_b", "m5of_c":
+		// the genuine key exchange of ANOTHER connection's exchange (built from that exchange's secret and session key),
+		// delivered on this connection
+		other := w.setups[variant[5:]]
+		if other == nil || other.srp == nil {
+			return "S=nostate"
+		}
+		step(s.m5(other.sesKey, other.srp.K, id, id.priv, ""))
 	case "m5zerokey":
 		step(s.m5(zero, nil, id, id.priv, ""))
 	case "m5randkey":
@@ -928,15 +936,31 @@ func (w *world) httpOp(p []string) string {
 		case "resource":
 			body = []byte(`{"resource-type":"image","image-width":16,"image-height":16}`)
 			ctype = "application/hap+json"
+		case "put-readonly":
+			body = []byte(`{"characteristics":[{"aid":4,"iid":12,"value":9}]}`)
+			ctype = "application/hap+json"
+		case "put-noevents":
+			body = []byte(`{"characteristics":[{"aid":4,"iid":13,"ev":true}]}`)
+			ctype = "application/hap+json"
+		case "put-missing":
+			body = []byte(`{"characteristics":[{"aid":9,"iid":99,"value":1}]}`)
+			ctype = "application/hap+json"
 		}
 		path := map[string]string{"accessories": "/accessories", "characteristics": "/characteristics?id=2.9,4.13", "characteristics-put": "/characteristics",
-			"pairings": "/pairings", "pairings-remove": "/pairings", "resource": "/resource", "identify": "/identify"}[p[2]]
+			"pairings": "/pairings", "pairings-remove": "/pairings", "resource": "/resource", "identify": "/identify",
+			// requests whose refusal must not depend on what exists and what it permits
+			"get-missing": "/characteristics?id=9.99,1.999", "get-writeonly": "/characteristics?id=1.2,4.11", "get-one": "/characteristics?id=2.9",
+			"put-readonly": "/characteristics", "put-noevents": "/characteristics", "put-missing": "/characteristics"}[p[2]]
 		r, e := do(p[3], path, ctype, body)
 		cc.secured = saved
 		cc.br = br
 		if e != "" {
 			cc.dead = true
 			return "X=closed"
+		}
+		if r.status == 470 {
+			// what a refusal says must be the same whatever was asked for: its body is part of the observation
+			return fmt.Sprintf("X=%d,%s,body=%s", r.status, hasCanary(r.body), hx(r.body))
 		}
 		return fmt.Sprintf("X=%d,%s", r.status, hasCanary(r.body))
 	case "E":
